@@ -27,12 +27,21 @@ struct ChunkedReader {
     sizes: Vec<usize>,
     idx: usize,
     calls: Rc<Cell<usize>>,
+    /// `seqf`: the read call with this index (over the whole run, from 0) fails with this kind and has no effect
+    fault: Option<(usize, std::io::ErrorKind)>,
 }
 
 impl Read for ChunkedReader {
     fn read(&mut self, buf: &mut [u8]) -> std::io::Result<usize> {
         if buf.is_empty() {
             return Ok(0);
+        }
+        if let Some((k, kind)) = self.fault {
+            if self.calls.get() == k {
+                self.calls.set(self.calls.get() + 1);
+                self.idx += 1;
+                return Err(kind.into());
+            }
         }
         let want = self.sizes[self.idx % self.sizes.len()].max(1);
         self.idx += 1;
@@ -47,7 +56,11 @@ impl Read for ChunkedReader {
 fn chunked(data: Vec<u8>, chunks: &str) -> (ChunkedReader, Rc<Cell<usize>>) {
     let sizes: Vec<usize> = chunks.split(',').map(|s| s.parse().unwrap()).collect();
     let calls = Rc::new(Cell::new(0));
-    (ChunkedReader { data, pos: 0, sizes, idx: 0, calls: calls.clone() }, calls)
+    (ChunkedReader { data, pos: 0, sizes, idx: 0, calls: calls.clone(), fault: None }, calls)
+}
+
+thread_local! {
+    static FAULT: Cell<Option<(usize, std::io::ErrorKind)>> = const { Cell::new(None) };
 }
 
 fn err_name(e: &Error) -> String {
@@ -71,6 +84,22 @@ fn err_name(e: &Error) -> String {
 fn main() {
     common::main_loop(|kind, args| match kind {
         "seq" => seq(args),
+        // seqf <k> <kind> <cap> <chunks> <hex> s <ops>: as `seq` (stop at the first error) with the k-th inner read failing
+        "seqf" => {
+            let kind = match args[1] {
+                "Other" => std::io::ErrorKind::Other,
+                "PermissionDenied" => std::io::ErrorKind::PermissionDenied,
+                "TimedOut" => std::io::ErrorKind::TimedOut,
+                "WouldBlock" => std::io::ErrorKind::WouldBlock,
+                "InvalidData" => std::io::ErrorKind::InvalidData,
+                "UnexpectedEof" => std::io::ErrorKind::UnexpectedEof,
+                _ => return "bad-kind".into(),
+            };
+            FAULT.with(|f| f.set(Some((args[0].parse().unwrap(), kind))));
+            let r = seq(&args[2..]);
+            FAULT.with(|f| f.set(None));
+            r
+        }
         "lossless" => lossless(args),
         "insitu" => insitu(args),
         _ => format!("unknown-kind {kind}"),
@@ -86,7 +115,8 @@ fn width_n(s: &str) -> (u32, u32) {
 
 fn seq(args: &[&str]) -> String {
     let cap: usize = args[0].parse().unwrap();
-    let (src, calls) = chunked(common::unhex(args[2]), args[1]);
+    let (mut src, calls) = chunked(common::unhex(args[2]), args[1]);
+    src.fault = FAULT.with(|f| f.get());
     let cont = args[3] == "c";
     let mut trees: Vec<CanonicalHuffmanTree<LE, u16>> = Vec::new();
     let mut out: Vec<String> = Vec::new();
